@@ -18,7 +18,8 @@ for f in $(git diff --name-only --diff-filter=U); do
       git checkout --ours -- DESIGN.md
       git diff "$base" "$b" -- DESIGN.md > /tmp/merge_ws_design.patch
       git add DESIGN.md
-      if git apply --3way /tmp/merge_ws_design.patch >/dev/null 2>&1 && ! grep -q '^<<<<<<< ' DESIGN.md; then
+      git apply --3way /tmp/merge_ws_design.patch >/dev/null 2>&1; python3 tools/resolve_design_rows.py DESIGN.md >/dev/null
+      if ! grep -q '^<<<<<<< ' DESIGN.md; then
         git add DESIGN.md; echo "DESIGN.md: branch changes re-applied as a patch"
       else
         echo "UNRESOLVED DESIGN.md (conflict markers left in place: resolve by hand, then commit)"; unresolved=1
